@@ -1,6 +1,7 @@
 import DicomModel.Lemmas.Pdu
 import DicomModel.Lemmas.PduValid
 import DicomModel.Lemmas.PduInc
+import DicomModel.Lemmas.PduNoPanic
 /-
 C25 — PDUs are encoded and decoded losslessly with exact framing.
 
@@ -44,10 +45,8 @@ theorem readBody_write {p : Pdu} {body : Bytes} (hw : writePduBody p = .ok body)
   | unknown t d =>
     simp only [writePduBody] at hw
     cases hw
-    simp [WellFormedPdu, wfPdu] at hwf
-    have h : t ≠ 1 ∧ t ≠ 2 ∧ t ≠ 3 ∧ t ≠ 4 ∧ t ≠ 5 ∧ t ≠ 6 ∧ t ≠ 7 := by
-      have := hwf.1.2; omega
-    simp [readBody, pduType, h, normPdu]
+    simp [WellFormedPdu, wfPdu, knownPduType] at hwf
+    simp [readBody, pduType, hwf, normPdu]
 
 /-- **Round trip with exact framing.** A well-formed PDU that `write_pdu` accepts reads back as its
 normal form, for any bytes `r` following it in the buffer, consuming exactly the bytes written
@@ -170,10 +169,8 @@ theorem lengths_consistent {p : Pdu} {bs : Bytes} (hwf : WellFormedPdu p) (hw : 
   | releaseRP => simp only [writePduBody] at hb; cases hb; simp [pduType]
   | abortRQ src => simp only [writePduBody] at hb; cases hb; simp [pduType]
   | unknown t d =>
-    simp [WellFormedPdu, wfPdu] at hwf
-    have h : t ≠ 1 ∧ t ≠ 2 ∧ t ≠ 3 ∧ t ≠ 4 ∧ t ≠ 5 ∧ t ≠ 6 ∧ t ≠ 7 := by
-      have := hwf.1.2; omega
-    simp [pduType, h]
+    simp [WellFormedPdu, wfPdu, knownPduType] at hwf
+    simp [pduType, hwf]
 /-! ### Sizes: what each 16-bit length field has to express -/
 
 /-- content length of a user-information sub-item, from the field layouts of PS3.7 annex D -/
@@ -388,6 +385,419 @@ theorem chunk16Wrapping_truncates (b : Bytes) (h : 65535 < b.length) :
   ⟨b.length % 65536, by omega, by omega, rfl⟩
 
 
+/-! ### Exact characterisation of when `write_pdu` succeeds (both directions), 32-bit fields included -/
+
+def EncStr (s : Str) : Prop := ∀ c ∈ s, c < 256
+
+/-- the text fields of a user variable are within ISO-8859-1 -/
+def EncUserVar : UserVar → Prop
+  | .implClassUid s => EncStr s
+  | .implVersionName s => EncStr s
+  | .sopClassExt uid _ => EncStr uid
+  | .roleSelection uid _ _ => EncStr uid
+  | _ => True
+
+def EncPcProposed (pc : PcProposed) : Prop := EncStr pc.abstractSyntax ∧ ∀ ts ∈ pc.transferSyntaxes, EncStr ts
+def EncPcResult (pc : PcResult) : Prop := EncStr pc.transferSyntax
+
+def EncAssoc {γ : Type} (encPc : γ → Prop) (a : Assoc γ) : Prop :=
+  EncStr a.callingAe ∧ EncStr a.calledAe ∧ EncStr a.acn ∧ (∀ pc ∈ a.pcs, encPc pc) ∧ ∀ v ∈ a.uvs, EncUserVar v
+
+def EncodablePdu : Pdu → Prop
+  | .associationRQ a => EncAssoc EncPcProposed a
+  | .associationAC a => EncAssoc EncPcResult a
+  | _ => True
+
+def pcListLen {γ : Type} (pcLen : γ → Nat) : List γ → Nat
+  | [] => 0
+  | pc :: r => 4 + pcLen pc + pcListLen pcLen r
+
+def pdvListLen : List Pdv → Nat
+  | [] => 0
+  | v :: r => 4 + (2 + v.data.length) + pdvListLen r
+
+def assocBodyLen {γ : Type} (pcLen : γ → Nat) (a : Assoc γ) : Nat :=
+  68 + (4 + a.acn.length) + pcListLen pcLen a.pcs + (if a.uvs.isEmpty then 0 else 4 + userInfoLen a.uvs)
+
+/-- number of bytes after the 6-byte PDU header -/
+def pduBodyLen : Pdu → Nat
+  | .associationRQ a => assocBodyLen pcProposedLen a
+  | .associationAC a => assocBodyLen pcResultLen a
+  | .pData vs => pdvListLen vs
+  | .unknown _ d => d.length
+  | _ => 4
+
+/-- what the 32-bit length fields have to express: the PDU body and each presentation data value -/
+def Fits32 (p : Pdu) : Prop :=
+  pduBodyLen p ≤ 4294967295 ∧
+    match p with
+    | .pData vs => ∀ v ∈ vs, 2 + v.data.length ≤ 4294967295
+    | _ => True
+
+theorem encodeText_ok_of {s : Str} (h : EncStr s) : encodeText s = .ok s := encodeText_ok.2 ⟨h, rfl⟩
+
+theorem item16_ok_of {t : Nat} {d : W} {c : Bytes} (hc : d = .ok c) (hl : c.length ≤ 65535) :
+    item16 t d = .ok (t :: 0 :: (be16 c.length ++ c)) := item16_ok.2 ⟨c, hc, hl, rfl⟩
+
+theorem chunk16_ok_of {d : W} {c : Bytes} (hc : d = .ok c) (hl : c.length ≤ 65535) :
+    chunk16 d = .ok (be16 c.length ++ c) := chunk16_ok.2 ⟨c, hc, hl, rfl⟩
+
+theorem wcat_ok_of {a b : W} {x y : Bytes} (ha : a = .ok x) (hb : b = .ok y) : wcat a b = .ok (x ++ y) :=
+  wcat_ok.2 ⟨x, y, ha, hb, rfl⟩
+
+/-! user variables -/
+
+theorem writeUserVar_enc {v : UserVar} {b : Bytes} (hw : writeUserVar v = .ok b) : EncUserVar v := by
+  cases v with
+  | implClassUid s =>
+    simp only [writeUserVar] at hw
+    obtain ⟨c, hc, -, -⟩ := item16_ok.1 hw
+    exact (encodeText_ok.1 hc).1
+  | implVersionName s =>
+    simp only [writeUserVar] at hw
+    obtain ⟨c, hc, -, -⟩ := item16_ok.1 hw
+    exact (encodeText_ok.1 hc).1
+  | roleSelection uid scu scp =>
+    simp only [writeUserVar] at hw
+    obtain ⟨c, hc, -, -⟩ := item16_ok.1 hw
+    obtain ⟨x, y, hx, -, -⟩ := wcat_ok.1 hc
+    obtain ⟨u, hu, -, -⟩ := chunk16_ok.1 hx
+    exact (encodeText_ok.1 hu).1
+  | sopClassExt uid d =>
+    simp only [writeUserVar] at hw
+    obtain ⟨c, hc, -, -⟩ := item16_ok.1 hw
+    obtain ⟨x, y, hx, -, -⟩ := wcat_ok.1 hc
+    obtain ⟨u, hu, -, -⟩ := chunk16_ok.1 hx
+    exact (encodeText_ok.1 hu).1
+  | _ => trivial
+
+theorem writeUserVar_ok_of {v : UserVar} (hf : uvContentLen v ≤ 65535) (he : EncUserVar v) :
+    ∃ b, writeUserVar v = .ok b := by
+  cases v with
+  | maxLength n => simp only [writeUserVar]; exact ⟨_, item16_ok_of rfl (by simp)⟩
+  | unknown t d => simp only [writeUserVar]; exact ⟨_, item16_ok_of rfl (by simpa [uvContentLen] using hf)⟩
+  | implClassUid s =>
+    simp only [writeUserVar]
+    exact ⟨_, item16_ok_of (encodeText_ok_of he) (by simpa [uvContentLen] using hf)⟩
+  | implVersionName s =>
+    simp only [writeUserVar]
+    exact ⟨_, item16_ok_of (encodeText_ok_of he) (by simpa [uvContentLen] using hf)⟩
+  | roleSelection uid scu scp =>
+    simp only [uvContentLen] at hf
+    simp only [writeUserVar]
+    exact ⟨_, item16_ok_of (wcat_ok_of (chunk16_ok_of (encodeText_ok_of he) (by omega)) rfl) (by simp; omega)⟩
+  | sopClassExt uid d =>
+    simp only [uvContentLen] at hf
+    simp only [writeUserVar]
+    exact ⟨_, item16_ok_of (wcat_ok_of (chunk16_ok_of (encodeText_ok_of he) (by omega)) rfl) (by simp; omega)⟩
+  | userIdentity u =>
+    simp only [uvContentLen] at hf
+    simp only [writeUserVar]
+    exact ⟨_, item16_ok_of (wcat_ok_of rfl (wcat_ok_of (chunk16_ok_of rfl (by omega)) (chunk16_ok_of rfl (by omega))))
+      (by simp; omega)⟩
+
+theorem writeUserVarList_enc (vs : List UserVar) : ∀ b, writeUserVarList vs = .ok b → ∀ v ∈ vs, EncUserVar v := by
+  induction vs with
+  | nil => intro b _ v h; simp at h
+  | cons v vs ih =>
+    intro b hw
+    simp only [writeUserVarList] at hw
+    obtain ⟨x, y, hx, hy, rfl⟩ := wcat_ok.1 hw
+    intro w hw'
+    rcases List.mem_cons.1 hw' with h | h
+    · subst h; exact writeUserVar_enc hx
+    · exact ih y hy w h
+
+theorem writeUserVarList_ok_of (vs : List UserVar) (hf : ∀ v ∈ vs, uvContentLen v ≤ 65535)
+    (he : ∀ v ∈ vs, EncUserVar v) : ∃ b, writeUserVarList vs = .ok b := by
+  induction vs with
+  | nil => exact ⟨[], rfl⟩
+  | cons v vs ih =>
+    obtain ⟨x, hx⟩ := writeUserVar_ok_of (hf v (by simp)) (he v (by simp))
+    obtain ⟨y, hy⟩ := ih (fun w hw => hf w (by simp [hw])) (fun w hw => he w (by simp [hw]))
+    exact ⟨x ++ y, wcat_ok_of hx hy⟩
+
+/-- the user-information item: length, and success exactly when everything fits and is encodable -/
+theorem writeUserVars_len {vs : List UserVar} {b : Bytes} (hw : writeUserVars vs = .ok b) :
+    b.length = (if vs.isEmpty then 0 else 4 + userInfoLen vs) ∧ ∀ v ∈ vs, EncUserVar v := by
+  by_cases hne : vs = []
+  · subst hne; simp [writeUserVars] at hw; subst hw; simp
+  · have : vs.isEmpty = false := by cases vs <;> simp_all
+    simp only [writeUserVars, this] at hw
+    obtain ⟨c, hc, hl, rfl⟩ := item16_ok.1 hw
+    obtain ⟨h1, -⟩ := writeUserVarList_len vs c hc
+    exact ⟨by simp [this, h1]; omega, writeUserVarList_enc vs c hc⟩
+
+theorem writeUserVars_ok_of {vs : List UserVar} (hf : ∀ v ∈ vs, uvContentLen v ≤ 65535)
+    (ht : userInfoLen vs ≤ 65535) (he : ∀ v ∈ vs, EncUserVar v) : ∃ b, writeUserVars vs = .ok b := by
+  by_cases hne : vs = []
+  · subst hne; exact ⟨[], rfl⟩
+  · have : vs.isEmpty = false := by cases vs <;> simp_all
+    obtain ⟨c, hc⟩ := writeUserVarList_ok_of vs hf he
+    obtain ⟨h1, -⟩ := writeUserVarList_len vs c hc
+    simp only [writeUserVars, this]
+    exact ⟨_, item16_ok_of hc (by omega)⟩
+
+/-! presentation contexts -/
+
+theorem writeTsList_enc (tss : List Str) : ∀ b, writeTsList tss = .ok b → ∀ ts ∈ tss, EncStr ts := by
+  induction tss with
+  | nil => intro b _ v h; simp at h
+  | cons ts tss ih =>
+    intro b hw
+    simp only [writeTsList] at hw
+    obtain ⟨x, y, hx, hy, rfl⟩ := wcat_ok.1 hw
+    obtain ⟨c, hc, -, -⟩ := item16_ok.1 hx
+    intro w hw'
+    rcases List.mem_cons.1 hw' with h | h
+    · subst h; exact (encodeText_ok.1 hc).1
+    · exact ih y hy w h
+
+theorem writeTsList_ok_of (tss : List Str) (hf : tsListLen tss ≤ 65535) (he : ∀ ts ∈ tss, EncStr ts) :
+    ∃ b, writeTsList tss = .ok b := by
+  induction tss with
+  | nil => exact ⟨[], rfl⟩
+  | cons ts tss ih =>
+    simp only [tsListLen] at hf
+    obtain ⟨y, hy⟩ := ih (by omega) (fun w hw => he w (by simp [hw]))
+    exact ⟨_, wcat_ok_of (item16_ok_of (encodeText_ok_of (he ts (by simp))) (by omega)) hy⟩
+
+theorem writePcProposed_len {pc : PcProposed} {b : Bytes} (hw : writePcProposed pc = .ok b) :
+    b.length = 4 + pcProposedLen pc ∧ EncPcProposed pc := by
+  simp only [writePcProposed] at hw
+  obtain ⟨c, hc, hl, rfl⟩ := item16_ok.1 hw
+  obtain ⟨x, y, hx, hy, rfl⟩ := wcat_ok.1 hc
+  cases hx
+  obtain ⟨p, q, hp, hq, rfl⟩ := wcat_ok.1 hy
+  obtain ⟨a, ha, hal, rfl⟩ := item16_ok.1 hp
+  obtain ⟨hea, rfl⟩ := encodeText_ok.1 ha
+  have := writeTsList_len _ q hq
+  exact ⟨by simp [pcProposedLen, this]; omega, hea, writeTsList_enc _ q hq⟩
+
+theorem writePcProposed_ok_of {pc : PcProposed} (hf : pcProposedLen pc ≤ 65535) (he : EncPcProposed pc) :
+    ∃ b, writePcProposed pc = .ok b := by
+  simp only [pcProposedLen] at hf
+  obtain ⟨q, hq⟩ := writeTsList_ok_of pc.transferSyntaxes (by omega) he.2
+  have hql := writeTsList_len _ q hq
+  exact ⟨_, item16_ok_of (wcat_ok_of rfl (wcat_ok_of (item16_ok_of (encodeText_ok_of he.1) (by omega)) hq))
+    (by simp [hql]; omega)⟩
+
+theorem writePcResult_len {pc : PcResult} {b : Bytes} (hw : writePcResult pc = .ok b) :
+    b.length = 4 + pcResultLen pc ∧ EncPcResult pc := by
+  simp only [writePcResult] at hw
+  obtain ⟨c, hc, hl, rfl⟩ := item16_ok.1 hw
+  obtain ⟨x, y, hx, hy, rfl⟩ := wcat_ok.1 hc
+  cases hx
+  obtain ⟨a, ha, hal, rfl⟩ := item16_ok.1 hy
+  obtain ⟨hea, rfl⟩ := encodeText_ok.1 ha
+  exact ⟨by simp [pcResultLen]; omega, hea⟩
+
+theorem writePcResult_ok_of {pc : PcResult} (hf : pcResultLen pc ≤ 65535) (he : EncPcResult pc) :
+    ∃ b, writePcResult pc = .ok b := by
+  simp only [pcResultLen] at hf
+  exact ⟨_, item16_ok_of (wcat_ok_of rfl (item16_ok_of (encodeText_ok_of he) (by omega))) (by simp; omega)⟩
+
+theorem writePcProposedList_len (pcs : List PcProposed) : ∀ b, writePcProposedList pcs = .ok b →
+    b.length = pcListLen pcProposedLen pcs ∧ ∀ pc ∈ pcs, EncPcProposed pc := by
+  induction pcs with
+  | nil => intro b hw; simp [writePcProposedList] at hw; subst hw; simp [pcListLen]
+  | cons pc pcs ih =>
+    intro b hw
+    simp only [writePcProposedList] at hw
+    obtain ⟨x, y, hx, hy, rfl⟩ := wcat_ok.1 hw
+    obtain ⟨h1, h2⟩ := writePcProposed_len hx
+    obtain ⟨h3, h4⟩ := ih y hy
+    refine ⟨by simp [pcListLen, h1, h3], ?_⟩
+    intro w hw'
+    rcases List.mem_cons.1 hw' with h | h
+    · subst h; exact h2
+    · exact h4 w h
+
+theorem writePcResultList_len (pcs : List PcResult) : ∀ b, writePcResultList pcs = .ok b →
+    b.length = pcListLen pcResultLen pcs ∧ ∀ pc ∈ pcs, EncPcResult pc := by
+  induction pcs with
+  | nil => intro b hw; simp [writePcResultList] at hw; subst hw; simp [pcListLen]
+  | cons pc pcs ih =>
+    intro b hw
+    simp only [writePcResultList] at hw
+    obtain ⟨x, y, hx, hy, rfl⟩ := wcat_ok.1 hw
+    obtain ⟨h1, h2⟩ := writePcResult_len hx
+    obtain ⟨h3, h4⟩ := ih y hy
+    refine ⟨by simp [pcListLen, h1, h3], ?_⟩
+    intro w hw'
+    rcases List.mem_cons.1 hw' with h | h
+    · subst h; exact h2
+    · exact h4 w h
+
+theorem writePcProposedList_ok_of (pcs : List PcProposed) (hf : ∀ pc ∈ pcs, pcProposedLen pc ≤ 65535)
+    (he : ∀ pc ∈ pcs, EncPcProposed pc) : ∃ b, writePcProposedList pcs = .ok b := by
+  induction pcs with
+  | nil => exact ⟨[], rfl⟩
+  | cons pc pcs ih =>
+    obtain ⟨x, hx⟩ := writePcProposed_ok_of (hf pc (by simp)) (he pc (by simp))
+    obtain ⟨y, hy⟩ := ih (fun w hw => hf w (by simp [hw])) (fun w hw => he w (by simp [hw]))
+    exact ⟨x ++ y, wcat_ok_of hx hy⟩
+
+theorem writePcResultList_ok_of (pcs : List PcResult) (hf : ∀ pc ∈ pcs, pcResultLen pc ≤ 65535)
+    (he : ∀ pc ∈ pcs, EncPcResult pc) : ∃ b, writePcResultList pcs = .ok b := by
+  induction pcs with
+  | nil => exact ⟨[], rfl⟩
+  | cons pc pcs ih =>
+    obtain ⟨x, hx⟩ := writePcResult_ok_of (hf pc (by simp)) (he pc (by simp))
+    obtain ⟨y, hy⟩ := ih (fun w hw => hf w (by simp [hw])) (fun w hw => he w (by simp [hw]))
+    exact ⟨x ++ y, wcat_ok_of hx hy⟩
+
+/-! association bodies -/
+
+theorem writeAe_enc {s : Str} {b : Bytes} (h : writeAe s = .ok b) : EncStr s := by
+  unfold writeAe at h
+  cases he : encodeText s with
+  | error e => simp [he] at h
+  | ok c => exact (encodeText_ok.1 he).1
+
+theorem writeAe_ok_of {s : Str} (h : EncStr s) : ∃ b, writeAe s = .ok b := by
+  unfold writeAe; rw [encodeText_ok_of h]; exact ⟨_, rfl⟩
+
+theorem writeAssocBody_len {γ : Type} {writePcs : List γ → W} {pcLen : γ → Nat} {encPc : γ → Prop}
+    {a : Assoc γ} {body : Bytes}
+    (hpcs : ∀ b, writePcs a.pcs = .ok b → b.length = pcListLen pcLen a.pcs ∧ ∀ pc ∈ a.pcs, encPc pc)
+    (hw : writeAssocBody writePcs a = .ok body) :
+    body.length = assocBodyLen pcLen a ∧ EncAssoc encPc a := by
+  simp only [writeAssocBody] at hw
+  obtain ⟨b0, r0, h0, hr0, rfl⟩ := wcat_ok.1 hw
+  cases h0
+  obtain ⟨ae1, r1, h1, hr1, rfl⟩ := wcat_ok.1 hr0
+  obtain ⟨ae2, r2, h2, hr2, rfl⟩ := wcat_ok.1 hr1
+  obtain ⟨z32, r3, h3, hr3, rfl⟩ := wcat_ok.1 hr2
+  cases h3
+  obtain ⟨x, r4, hx, hr4, rfl⟩ := wcat_ok.1 hr3
+  obtain ⟨y, z, hy, hz, rfl⟩ := wcat_ok.1 hr4
+  obtain ⟨-, l1⟩ := writeAe_ok h1
+  obtain ⟨-, l2⟩ := writeAe_ok h2
+  simp only [writeAcn] at hx
+  obtain ⟨c, hc, hl, rfl⟩ := item16_ok.1 hx
+  obtain ⟨hec, rfl⟩ := encodeText_ok.1 hc
+  obtain ⟨ly, ey⟩ := hpcs y hy
+  obtain ⟨lz, ez⟩ := writeUserVars_len hz
+  refine ⟨?_, writeAe_enc h2, writeAe_enc h1, hec, ey, ez⟩
+  simp [assocBodyLen, l1, l2, ly, lz]; omega
+
+theorem writeAssocBody_ok_of {γ : Type} {writePcs : List γ → W} {pcLen : γ → Nat} {encPc : γ → Prop}
+    {a : Assoc γ}
+    (hpcs : (∀ pc ∈ a.pcs, pcLen pc ≤ 65535) → (∀ pc ∈ a.pcs, encPc pc) → ∃ b, writePcs a.pcs = .ok b)
+    (hf : FitsAssoc pcLen a) (he : EncAssoc encPc a) : ∃ body, writeAssocBody writePcs a = .ok body := by
+  obtain ⟨f1, f2, f3, f4⟩ := hf
+  obtain ⟨e1, e2, e3, e4, e5⟩ := he
+  obtain ⟨ae1, h1⟩ := writeAe_ok_of e2
+  obtain ⟨ae2, h2⟩ := writeAe_ok_of e1
+  obtain ⟨y, hy⟩ := hpcs f2 e4
+  obtain ⟨z, hz⟩ := writeUserVars_ok_of f3 f4 e5
+  exact ⟨_, wcat_ok_of rfl (wcat_ok_of h1 (wcat_ok_of h2 (wcat_ok_of rfl
+    (wcat_ok_of (item16_ok_of (encodeText_ok_of e3) f1) (wcat_ok_of hy hz)))))⟩
+
+/-! P-DATA -/
+
+theorem writePdvList_len (vs : List Pdv) : ∀ b, writePdvList vs = .ok b →
+    b.length = pdvListLen vs ∧ ∀ v ∈ vs, 2 + v.data.length ≤ 4294967295 := by
+  induction vs with
+  | nil => intro b hw; simp [writePdvList] at hw; subst hw; simp [pdvListLen]
+  | cons v vs ih =>
+    intro b hw
+    simp only [writePdvList] at hw
+    obtain ⟨x, y, hx, hy, rfl⟩ := wcat_ok.1 hw
+    simp only [writePdv] at hx
+    obtain ⟨c, hc, hl, rfl⟩ := chunk32_ok.1 hx
+    cases hc
+    obtain ⟨h3, h4⟩ := ih y hy
+    refine ⟨by simp [pdvListLen, h3]; omega, ?_⟩
+    intro w hw'
+    rcases List.mem_cons.1 hw' with h | h
+    · subst h; simp at hl; omega
+    · exact h4 w h
+
+theorem writePdvList_ok_of (vs : List Pdv) (hf : ∀ v ∈ vs, 2 + v.data.length ≤ 4294967295) :
+    ∃ b, writePdvList vs = .ok b := by
+  induction vs with
+  | nil => exact ⟨[], rfl⟩
+  | cons v vs ih =>
+    obtain ⟨y, hy⟩ := ih (fun w hw => hf w (by simp [hw]))
+    have := hf v (by simp)
+    exact ⟨_, wcat_ok_of (chunk32_ok.2 ⟨_, rfl, by simp; omega, rfl⟩) hy⟩
+
+/-! whole PDUs -/
+
+theorem writePduBody_len {p : Pdu} {body : Bytes} (hw : writePduBody p = .ok body) :
+    body.length = pduBodyLen p ∧ EncodablePdu p ∧
+      (match p with | .pData vs => ∀ v ∈ vs, 2 + v.data.length ≤ 4294967295 | _ => True) := by
+  cases p with
+  | associationRQ a =>
+    obtain ⟨h1, h2⟩ := writeAssocBody_len (encPc := EncPcProposed) (writePcProposedList_len a.pcs) hw
+    exact ⟨h1, h2, trivial⟩
+  | associationAC a =>
+    obtain ⟨h1, h2⟩ := writeAssocBody_len (encPc := EncPcResult) (writePcResultList_len a.pcs) hw
+    exact ⟨h1, h2, trivial⟩
+  | pData vs =>
+    obtain ⟨h1, h2⟩ := writePdvList_len vs body hw
+    exact ⟨h1, trivial, h2⟩
+  | associationRJ res src => simp only [writePduBody] at hw; cases hw; exact ⟨rfl, trivial, trivial⟩
+  | releaseRQ => simp only [writePduBody] at hw; cases hw; exact ⟨rfl, trivial, trivial⟩
+  | releaseRP => simp only [writePduBody] at hw; cases hw; exact ⟨rfl, trivial, trivial⟩
+  | abortRQ src => simp only [writePduBody] at hw; cases hw; exact ⟨rfl, trivial, trivial⟩
+  | unknown t d => simp only [writePduBody] at hw; cases hw; exact ⟨rfl, trivial, trivial⟩
+
+/-- the encoding is 6 header bytes plus the body computed from the field layouts -/
+theorem write_len {p : Pdu} {bs : Bytes} (hw : writePdu p = .ok bs) : bs.length = 6 + pduBodyLen p := by
+  obtain ⟨body, hb, hl, rfl⟩ := pdu32_ok.1 hw
+  simp [(writePduBody_len hb).1]; omega
+
+/-- **`write_pdu` succeeds exactly when** every 16-bit item length can express its content
+(`FitsPdu`), every 32-bit length (PDU body, presentation data values) can express its content
+(`Fits32`) and all text is within the codec's repertoire (`EncodablePdu`). -/
+theorem write_ok_iff (p : Pdu) : (∃ bs, writePdu p = .ok bs) ↔ FitsPdu p ∧ Fits32 p ∧ EncodablePdu p := by
+  constructor
+  · rintro ⟨bs, hw⟩
+    have hfit := write_ok_fits hw
+    obtain ⟨body, hb, hl, rfl⟩ := pdu32_ok.1 hw
+    obtain ⟨h1, h2, h3⟩ := writePduBody_len hb
+    refine ⟨hfit, ⟨by omega, ?_⟩, h2⟩
+    cases p <;> first | exact h3 | trivial
+  · rintro ⟨hf, ⟨h32, hv⟩, he⟩
+    have hbody : ∃ body, writePduBody p = .ok body := by
+      cases p with
+      | associationRQ a => exact writeAssocBody_ok_of (writePcProposedList_ok_of a.pcs) hf he
+      | associationAC a => exact writeAssocBody_ok_of (writePcResultList_ok_of a.pcs) hf he
+      | pData vs => exact writePdvList_ok_of vs hv
+      | associationRJ res src => exact ⟨_, rfl⟩
+      | releaseRQ => exact ⟨_, rfl⟩
+      | releaseRP => exact ⟨_, rfl⟩
+      | abortRQ src => exact ⟨_, rfl⟩
+      | unknown t d => exact ⟨_, rfl⟩
+    obtain ⟨body, hb⟩ := hbody
+    have hl := (writePduBody_len hb).1
+    exact ⟨_, pdu32_ok.2 ⟨body, hb, by omega, rfl⟩⟩
+
+/-- **32-bit oversize.** A presentation data value whose item (context id, control header, data)
+exceeds 2³² − 1 bytes, or a PDU body that does, makes `write_pdu` fail. -/
+theorem pdata_oversize_fails (vs : List Pdv) (v : Pdv) (hv : v ∈ vs) (hbig : 4294967295 < 2 + v.data.length) :
+    ∀ bs, writePdu (.pData vs) ≠ .ok bs := by
+  intro bs hw
+  have := ((write_ok_iff _).1 ⟨bs, hw⟩).2.1.2 v hv
+  omega
+
+theorem body_oversize_fails (p : Pdu) (hbig : 4294967295 < pduBodyLen p) : ∀ bs, writePdu p ≠ .ok bs := by
+  intro bs hw
+  have := ((write_ok_iff _).1 ⟨bs, hw⟩).2.1.1
+  omega
+
+/-- every well-formed, fitting, encodable PDU round-trips: `pdu_rt` without a hypothesis on the
+writer's result -/
+theorem pdu_rt_total {p : Pdu} (hwf : WellFormedPdu p) (hf : FitsPdu p) (h32 : Fits32 p) (he : EncodablePdu p)
+    (mx : Nat) (strict : Bool) (hmx : validMax mx) (hs : strict = true → pduBodyLen p ≤ mx) (r : Bytes) :
+    ∃ bs, writePdu p = .ok bs ∧ bs.length = 6 + pduBodyLen p ∧ readPdu mx strict (bs ++ r) = .ok (normPdu p, r) := by
+  obtain ⟨bs, hw⟩ := (write_ok_iff p).2 ⟨hf, h32, he⟩
+  have hl := write_len hw
+  exact ⟨bs, hw, hl, pdu_rt hwf hw mx strict hmx (fun h => by have := hs h; omega) r⟩
+
 /-! ### Framing for arbitrary buffers -/
 
 /-- the PDU-length field of a buffer holding at least the 6 header bytes -/
@@ -477,6 +887,155 @@ theorem read_ok_framing (mx : Nat) (strict : Bool) (hmx : validMax mx) (bs : Byt
           rfl
         | inc => simp [hb] at h
         | err e => simp [hb] at h
+/-! ### Code tables: reader against writer, and both against PS3.8 -/
+
+/-- every code the writer emits is the code the reader tests for the same thing -/
+theorem codes_reader_writer_agree :
+    (Gen.wPdu_AssociationRQ = Gen.rPdu_AssociationRQ ∧ Gen.wPdu_AssociationAC = Gen.rPdu_AssociationAC ∧
+     Gen.wPdu_AssociationRJ = Gen.rPdu_AssociationRJ ∧ Gen.wPdu_PData = Gen.rPdu_PData ∧
+     Gen.wPdu_ReleaseRQ = Gen.rPdu_ReleaseRQ ∧ Gen.wPdu_ReleaseRP = Gen.rPdu_ReleaseRP ∧
+     Gen.wPdu_AbortRQ = Gen.rPdu_AbortRQ) ∧
+    (Gen.wItem_ApplicationContext = Gen.rItem_ApplicationContext ∧
+     Gen.wItem_PresentationContextProposed = Gen.rItem_PresentationContextProposed ∧
+     Gen.wItem_PresentationContextResult = Gen.rItem_PresentationContextResult ∧
+     Gen.wItem_UserVariables = Gen.rItem_UserVariables ∧
+     Gen.wSubProposed_AbstractSyntax = Gen.rSubProposed_AbstractSyntax ∧
+     Gen.wSubProposed_TransferSyntax = Gen.rSubProposed_TransferSyntax ∧
+     Gen.wSubResult_TransferSyntax = Gen.rSubResult_TransferSyntax) ∧
+    (Gen.wUser_MaxLength = Gen.rUser_MaxLength ∧
+     Gen.wUser_ImplementationClassUID = Gen.rUser_ImplementationClassUID ∧
+     Gen.wUser_ScuScpRoleSelectionSubItem = Gen.rUser_ScuScpRoleSelectionSubItem ∧
+     Gen.wUser_ImplementationVersionName = Gen.rUser_ImplementationVersionName ∧
+     Gen.wUser_SopClassExtendedNegotiationSubItem = Gen.rUser_SopClassExtendedNegotiationSubItem ∧
+     Gen.wUser_UserIdentityItem = Gen.rUser_UserIdentityItem) := by decide
+
+/-- PDU types of PS3.8 §9.3 (Tables 9-11, 9-17, 9-21, 9-22, 9-24, 9-25, 9-26) -/
+theorem pdu_type_codes_ps38 :
+    Gen.rPdu_AssociationRQ = 0x01 ∧ Gen.rPdu_AssociationAC = 0x02 ∧ Gen.rPdu_AssociationRJ = 0x03 ∧
+    Gen.rPdu_PData = 0x04 ∧ Gen.rPdu_ReleaseRQ = 0x05 ∧ Gen.rPdu_ReleaseRP = 0x06 ∧
+    Gen.rPdu_AbortRQ = 0x07 := by decide
+
+/-- item types of PS3.8 §9.3.2/9.3.3 (Tables 9-12 … 9-20) and PS3.7 annex D -/
+theorem item_type_codes_ps38 :
+    Gen.rItem_ApplicationContext = 0x10 ∧ Gen.rItem_PresentationContextProposed = 0x20 ∧
+    Gen.rItem_PresentationContextResult = 0x21 ∧ Gen.rItem_UserVariables = 0x50 ∧
+    Gen.rSubProposed_AbstractSyntax = 0x30 ∧ Gen.rSubProposed_TransferSyntax = 0x40 ∧
+    Gen.rSubResult_TransferSyntax = 0x40 ∧
+    Gen.rUser_MaxLength = 0x51 ∧ Gen.rUser_ImplementationClassUID = 0x52 ∧
+    Gen.rUser_ScuScpRoleSelectionSubItem = 0x54 ∧ Gen.rUser_ImplementationVersionName = 0x55 ∧
+    Gen.rUser_SopClassExtendedNegotiationSubItem = 0x56 ∧ Gen.rUser_UserIdentityItem = 0x58 := by decide
+
+/-- result/reason of a presentation context (Table 9-18), reject result (Table 9-21), user identity
+type (PS3.7 Table D.3-14): written code reads back, and the numbers are the standard's -/
+theorem PcReason.code_ofCode {c : Nat} {x : PcReason} (h : PcReason.ofCode c = some x) : x.code = c := by
+  unfold PcReason.ofCode at h
+  repeat' split at h
+  all_goals cases h
+  all_goals (subst_vars; rfl)
+
+theorem pc_reason_codes_ps38 :
+    PcReason.acceptance.code = 0 ∧ PcReason.userRejection.code = 1 ∧ PcReason.noReason.code = 2 ∧
+    PcReason.abstractSyntaxNotSupported.code = 3 ∧ PcReason.transferSyntaxesNotSupported.code = 4 := by decide
+
+theorem RjResult.code_ofCode {c : Nat} {x : RjResult} (h : RjResult.ofCode c = some x) : x.code = c := by
+  unfold RjResult.ofCode at h
+  repeat' split at h
+  all_goals cases h
+  all_goals (subst_vars; rfl)
+
+theorem IdType.code_ofCode {c : Nat} {x : IdType} (h : IdType.ofCode c = some x) : x.code = c := by
+  unfold IdType.ofCode at h
+  repeat' split at h
+  all_goals cases h
+  all_goals (subst_vars; rfl)
+
+theorem id_type_codes_ps37 :
+    IdType.username.code = 1 ∧ IdType.usernamePassword.code = 2 ∧ IdType.kerberos.code = 3 ∧
+    IdType.saml.code = 4 ∧ IdType.jwt.code = 5 := by decide
+
+/-- A-ASSOCIATE-RJ (Table 9-21): whatever source/reason pair the reader accepts is the pair the
+writer emits for the value it produced … -/
+theorem RjSource.codes_ofCodes {s r : Nat} {x : RjSource} (h : RjSource.ofCodes s r = some x) :
+    x.codes = (s, r) := by
+  unfold RjSource.ofCodes at h
+  repeat' split at h
+  all_goals cases h
+  all_goals (subst_vars; rfl)
+
+/-- … the reader accepts exactly the pairs of Table 9-21 … -/
+theorem rj_accepted_pairs_ps38 (s r : Nat) :
+    (RjSource.ofCodes s r).isSome = true ↔
+      (s = 1 ∧ 1 ≤ r ∧ r ≤ 10) ∨ (s = 2 ∧ (r = 1 ∨ r = 2)) ∨ (s = 3 ∧ r ≤ 7) := by
+  unfold RjSource.ofCodes
+  simp only [Gen.rRj_ServiceUser, Gen.rRj_ServiceProviderASCE, Gen.rRj_ServiceProviderPresentation,
+    Gen.rRj_ServiceUser_NoReasonGiven, Gen.rRj_ServiceUser_ApplicationContextNameNotSupported,
+    Gen.rRj_ServiceUser_CallingAETitleNotRecognized, Gen.rRj_ServiceUser_CalledAETitleNotRecognized,
+    Gen.rRj_ServiceUser_Reserved, Gen.rRj_ServiceProviderASCE_NoReasonGiven,
+    Gen.rRj_ServiceProviderASCE_ProtocolVersionNotSupported,
+    Gen.rRj_ServiceProviderPresentation_TemporaryCongestion,
+    Gen.rRj_ServiceProviderPresentation_LocalLimitExceeded, Gen.rRj_ServiceProviderPresentation_Reserved]
+  repeat' split
+  all_goals simp_all
+  all_goals omega
+
+/-- … with the standard's meaning of each named reason -/
+theorem rj_named_codes_ps38 :
+    RjSource.codes (.serviceUser .noReasonGiven) = (1, 1) ∧ RjSource.codes (.serviceUser .acnNotSupported) = (1, 2) ∧
+    RjSource.codes (.serviceUser .callingNotRecognized) = (1, 3) ∧
+    RjSource.codes (.serviceUser .calledNotRecognized) = (1, 7) ∧
+    RjSource.codes (.asce .noReasonGiven) = (2, 1) ∧ RjSource.codes (.asce .protocolVersionNotSupported) = (2, 2) ∧
+    RjSource.codes (.presentation .temporaryCongestion) = (3, 1) ∧
+    RjSource.codes (.presentation .localLimitExceeded) = (3, 2) ∧
+    RjResult.permanent.code = 1 ∧ RjResult.transient.code = 2 := by decide
+
+/-- A-ABORT (Table 9-26): source and (for the service provider) reason -/
+theorem abort_codes_ps38 :
+    AbortSource.codes .serviceUser = (0, 0) ∧ AbortSource.codes .reserved = (1, 0) ∧
+    AbortSource.codes (.serviceProvider .reasonNotSpecified) = (2, 0) ∧
+    AbortSource.codes (.serviceProvider .unrecognizedPdu) = (2, 1) ∧
+    AbortSource.codes (.serviceProvider .unexpectedPdu) = (2, 2) ∧
+    AbortSource.codes (.serviceProvider .reserved) = (2, 3) ∧
+    AbortSource.codes (.serviceProvider .unrecognizedPduParameter) = (2, 4) ∧
+    AbortSource.codes (.serviceProvider .unexpectedPduParameter) = (2, 5) ∧
+    AbortSource.codes (.serviceProvider .invalidPduParameter) = (2, 6) := by decide
+
+theorem AbortSource.codes_ofCodes {s r : Nat} {x : AbortSource} (h : AbortSource.ofCodes s r = some x) :
+    x.codes.1 = s ∧ (s = Gen.rAbort_ServiceProvider → x.codes.2 = r) := by
+  unfold AbortSource.ofCodes at h
+  repeat' split at h
+  all_goals cases h
+  all_goals (subst_vars; simp [AbortSource.codes])
+/-! ### No panic -/
+
+/-- **`read_pdu` never panics**: for every maximum, mode and byte string the model's outcome is a PDU,
+"incomplete" or an error, never the `panic` that stands for `Buf::get_*`/`copy_to_bytes`/`advance` on
+a short buffer — every such access is dominated by a sufficient length test.
+(Lemmas in `Lemmas/PduNoPanic.lean`, shared with C05.) -/
+theorem read_pdu_no_panic (mx : Nat) (strict : Bool) (bs : Bytes) : readPdu mx strict bs ≠ .err .panic := by
+  have key : C05.NP (readPdu mx strict bs) := by
+    unfold readPdu
+    split
+    · exact C05.NP_err (by decide)
+    split
+    · exact C05.NP_inc
+    · rename_i hl
+      rw [C05.takeP_ok (n := 2) (bs := bs) (by omega)]
+      simp only [Res.bind_eq, Res.bind_ok]
+      split
+      · exact C05.NP_inc
+      · rename_i hl2
+        obtain ⟨len, e1⟩ := C05.u32P_ok (bs := bs.drop 2) (by omega)
+        simp only [e1, Res.bind_ok]
+        split
+        · exact C05.NP_err (by decide)
+        · split
+          · exact C05.NP_inc
+          · rename_i hl3
+            rw [C05.takeP_ok (by omega)]
+            simp only [Res.bind_ok]
+            exact C05.NP_bind (C05.readBody_np _ _) fun p _ => C05.NP_ok _
+  exact key
+
 /-! ### Exact round trip and non-vacuity -/
 
 /-- a PDU already in the reader's normal form (titles ≤ 16 bytes, no surrounding white space) -/
